@@ -107,6 +107,12 @@ def structure_case(task):
     maxdisc = 0.0
     for i in range(1, 10):
         for u in directions(S, i):
+            # the centre of the ball first, on the same instances: continuity may not depend on what was evaluated before
+            for inst in (w, S.p):
+                c = gkls.value(inst, S.M[i])
+                ev += 1
+                if c != S.f[i]:
+                    msgs.append(f"{tag}: value at minimiser {i} is {c!r} on re-evaluation, prescribed {S.f[i]!r}")
             # slope bound across the boundary: paraboloid gradient + cubic gradient, both <= 2*(|x-T|) + ... use C = 50
             for delta in (1e-3, 1e-5, 1e-7, 1e-9):
                 pin = S.M[i] + u * S.rho[i] * (1 - delta)
